@@ -93,8 +93,8 @@ var soupLiterals = []string{
 var hostileSnippets = []string{
 	`throw null`, `throw undefined`, `throw {get message(){throw 1}, name: {toString:function(){throw 2}}}`,
 	`(function f(){f()})()`, `var o={get a(){return this.a}};o.a`, `var o={toString:function(){return ""+this}};""+o`, `[1].map(function f(x){return [x].map(f)})`,
-	`eval("eval('eval(\"1\")')")`, `Function("return this")()`, `new Function("a","b","return a+b")(1,2)`, `new Function("/*","*/){")`, `Function("){")`, `Function("a,","return 1")`, `Function("}); (function(){")`, `Function("", "}) + (function(){")`,
-	`String.prototype.charAt.call(5,0)`, `RegExp.prototype.test("x")`, `RegExp.prototype.exec("x")`, `RegExp.prototype.toString()`, `Date.prototype.getTime.call({})`, `Function.prototype.toString.call({})`, `Function.prototype()`, `new Function.prototype`,
+	`eval("eval('eval(\"1\")')")`, `Function("return this")()`, `new Function("a","b","return a+b")(1,2)`, `new Function("/*","*/){")`, `Function("){")`, `Function("a,","return 1")`,
+	`String.prototype.charAt.call(5,0)`, `RegExp.prototype.toString()`, `Date.prototype.getTime.call({})`, `Function.prototype.toString.call({})`, `Function.prototype()`, `new Function.prototype`,
 	`Object.defineProperty({}, "x", {get:undefined,configurable:true})`, `Object.defineProperty([], "length", {value:-1})`, `Object.defineProperty([1,2,3], "length", {value:1,writable:false}).push(1)`, `Object.create(null)+""`, `Object.create(null) instanceof Object`, `for (var k in Object.create(null));`,
 	`var a=[];a[0]=a;a.join()`, `var a=[];a[0]=a;String(a)`, `var a=[];a[0]=a;JSON.stringify(a)`, `var o={};o.o=o;JSON.stringify(o)`, `JSON.stringify({toJSON:function(){return this}})`, `JSON.parse("[[[[[[[[[[[[]]]]]]]]]]]]")`, `JSON.parse('{"__proto__":1}')`, `JSON.parse("1",function(){throw 1})`, `JSON.stringify(1,null,{valueOf:function(){throw 1}})`,
 	`[].reduce(function(){})`, `[1,2,3].sort(function(){throw 1})`, `[3,2,1].sort(function(){return NaN})`, `Array.prototype.sort.call({length:3,0:{},1:null})`, `Array.prototype.concat.call(null)`, `Array.prototype.push.apply([], {length:3})`, `Array.apply(null,{length:5})`, `new Array(-1)`, `new Array(1.5)`, `[].length=-1`, `var a=[1,2,3];a.length={valueOf:function(){a.length=0;return 2}}`,
@@ -116,11 +116,26 @@ var unprintableThrowers = []string{
 	`throw {toString:function(){throw {toString:function(){throw 2}}}}`, `var e={};e.toString=function(){return ""+e};throw e`,
 }
 
+// gatedSnippets: one-liners that are the witness of a known finding; drawn only while it no longer reproduces.
+var gatedSnippets = map[string][]string{
+	"C02-THROW-UNPRINTABLE":       unprintableThrowers,
+	"C02-REGEXP-PROTOTYPE-NIL":    {`RegExp.prototype.test("x")`, `RegExp.prototype.exec("x")`, `"abc".replace(RegExp.prototype, "x")`, `"abc".split(RegExp.prototype)`},
+	"C02-PARSEFUNCTION-WRAPPER":   {`Function("}); (function(){")`, `Function("", "}) + (function(){")`, `new Function("a){}) + (function(", "")`},
+	"C02-TOLOCALESTRING-TAG":      {`(1).toLocaleString("not a tag")`, `(1).toLocaleString({})`},
+	"C02-OBJECT-ASSIGN-PRIMITIVE": {`Object.assign(1, {a:1})`, `Object.assign("s", "ab")`},
+	"C02-JSON-STRINGIFY-DEPTH":    {`JSON.stringify(1, Array)`, `JSON.stringify({a:1}, function(k,v){return {a:1}})`},
+}
+
+var gatedOrder = []string{"C02-THROW-UNPRINTABLE", "C02-REGEXP-PROTOTYPE-NIL", "C02-PARSEFUNCTION-WRAPPER", "C02-TOLOCALESTRING-TAG", "C02-OBJECT-ASSIGN-PRIMITIVE", "C02-JSON-STRINGIFY-DEPTH"}
+
 func activeSnippets() []string {
-	if known("C02-THROW-UNPRINTABLE") {
-		return hostileSnippets
+	out := append([]string{}, hostileSnippets...)
+	for _, id := range gatedOrder {
+		if !known(id) {
+			out = append(out, gatedSnippets[id]...)
+		}
 	}
-	return append(append([]string{}, hostileSnippets...), unprintableThrowers...)
+	return out
 }
 
 func sourceMapTail(hostile string) string {
@@ -163,7 +178,7 @@ func genSource(t *rapid.T) sourceCase {
 			return piece{T: rapid.SampledFrom(closers).Draw(t, "cl")}
 		case k < 98:
 			// very long identifier / number / string body
-			return piece{T: rapid.SampledFrom([]string{"a", "9", "0", "1e", ".", "x1", "\\u0061", "é", "\U00010400", " ", "\n", "'a'+", "a.", "a,"}).Draw(t, "long"), N: rapid.SampledFrom([]int{50, 400, 400, 3000, 3000, 20000}).Draw(t, "n")}
+			return piece{T: rapid.SampledFrom([]string{"a", "9", "0", "1e", ".", "x1", "\\u0061", "é", "\U00010400", " ", "\n", "'a'+", "a.", "a,"}).Draw(t, "long"), N: rapid.SampledFrom([]int{50, 50, 400, 400, 400, 3000, 3000, 20000}).Draw(t, "n")}
 		default:
 			return piece{T: sourceMapTail(rapid.SampledFrom(sourceMaps).Draw(t, "sm"))}
 		}
@@ -178,7 +193,7 @@ func genSource(t *rapid.T) sourceCase {
 	case mode < 6:
 		c.Mode = "nesting"
 		op := rapid.SampledFrom(openers).Draw(t, "opener")
-		depth := rapid.SampledFrom([]int{3, 30, 30, 300, 300, 300, 1000, 1000, 5000}).Draw(t, "depth")
+		depth := rapid.SampledFrom([]int{3, 30, 30, 30, 300, 300, 300, 300, 1000, 1000, 1000, 5000}).Draw(t, "depth")
 		c.Sep = ""
 		c.Pieces = append(c.Pieces, piece{T: op, N: depth})
 		if rapid.Bool().Draw(t, "fill") {
@@ -186,6 +201,18 @@ func genSource(t *rapid.T) sourceCase {
 		}
 		if rapid.Bool().Draw(t, "close") {
 			c.Pieces = append(c.Pieces, piece{T: rapid.SampledFrom(closers).Draw(t, "closer"), N: depth - rapid.IntRange(0, 2).Draw(t, "short")})
+		}
+	case mode == 9:
+		c.Mode = "program+snippets"
+		c.Sep = ";\n"
+		c.Pieces = append(c.Pieces, piece{T: prog.Print(prog.GenProgram(t))})
+		n := rapid.IntRange(1, 4).Draw(t, "nsnip")
+		for i := 0; i < n; i++ {
+			sn := rapid.SampledFrom(activeSnippets()).Draw(t, "snip")
+			if rapid.Bool().Draw(t, "wrapped") {
+				sn = "try { " + sn + " } catch (e) { log(String(e)) }"
+			}
+			c.Pieces = append(c.Pieces, piece{T: sn})
 		}
 	default:
 		c.Mode = "program-mutation"
@@ -285,16 +312,24 @@ func runSourceText(src string, limit int) (l entryLog, nontrivial bool) {
 		})
 	}
 	if !big || harness.Hash64(src)%3 == 1 {
-		l.call("parser.ParseFunction(params, src)", func() { _, _ = parser.ParseFunction("a, b", src) })
+		if breaksFunctionWrapper("a, b", src) {
+			l.excluded = append(l.excluded, "C02-PARSEFUNCTION-WRAPPER")
+		} else {
+			l.call("parser.ParseFunction(params, src)", func() { _, _ = parser.ParseFunction("a, b", src) })
+		}
 	}
 	if !big || harness.Hash64(src)%3 == 2 {
-		l.call("parser.ParseFunction(src, body)", func() { _, _ = parser.ParseFunction(src, "return 1") })
+		if breaksFunctionWrapper(src, "return 1") {
+			l.excluded = append(l.excluded, "C02-PARSEFUNCTION-WRAPPER")
+		} else {
+			l.call("parser.ParseFunction(src, body)", func() { _, _ = parser.ParseFunction(src, "return 1") })
+		}
 	}
 	// tokens before the first error (otto's own scanner, itself an entry point)
 	firstErr := len(src) + 1
 	if perr != nil {
 		if el, ok := perr.(*parser.ErrorList); ok && el != nil && len(*el) > 0 {
-			firstErr = (*el)[0].Position.Offset
+			firstErr = offsetOf(src, (*el)[0].Position.Line, (*el)[0].Position.Column)
 		} else {
 			firstErr = 0
 		}
@@ -314,6 +349,18 @@ func runSourceText(src string, limit int) (l entryLog, nontrivial bool) {
 	})
 	nontrivial = perr == nil || tokens >= 3
 	l.classes = append(l.classes, "parse:"+errClass(perr))
+	// every prefix of a short text: end of input after and inside every token is where lexers and
+	// recursive-descent parsers index past the end
+	if len(src) <= 300 {
+		for k := 0; k < len(src); k++ {
+			prefix := src[:k]
+			l.call(fmt.Sprintf("parser.ParseFile(first %d bytes)", k), func() { _, _ = parser.ParseFile(nil, "", prefix, 0) })
+			if !breaksFunctionWrapper("", prefix) {
+				l.call(fmt.Sprintf("parser.ParseFunction(\"\", first %d bytes)", k), func() { _, _ = parser.ParseFunction("", prefix) })
+			}
+		}
+		l.classes = append(l.classes, "all-prefixes")
+	}
 
 	var vm *otto.Otto
 	fresh := func() {
@@ -366,6 +413,11 @@ func runSourceText(src string, limit int) (l entryLog, nontrivial bool) {
 	step("Otto.Set(src, src)", func() { _ = vm.Set(src, src) })
 	// the text as a string *value*: the built-ins that take source-like strings
 	step("Otto.Set(string value)", func() { _ = vm.Set("__s", src) })
+	skipFn := breaksFunctionWrapper("", src) || breaksFunctionWrapper(src, src) || breaksFunctionWrapper("a", src)
+	if skipFn {
+		l.excluded = append(l.excluded, "C02-PARSEFUNCTION-WRAPPER")
+	}
+	step("Otto.Set(flag)", func() { _ = vm.Set("__skipFn", skipFn) })
 	step("string intake", func() {
 		_, _ = vm.Run(`(function(s){ var r=[]; function t(f){ try { r.push(String(f())) } catch(e) { r.push("E:"+e) } }
 		 t(function(){return s.length}); t(function(){return s.charAt(1)+s.charCodeAt(2)}); t(function(){return s.toUpperCase().toLowerCase()});
@@ -373,12 +425,39 @@ func runSourceText(src string, limit int) (l entryLog, nontrivial bool) {
 		 t(function(){return JSON.stringify(s)}); t(function(){return JSON.parse(s)}); t(function(){return JSON.stringify(JSON.parse(s))});
 		 t(function(){return new RegExp(s).exec(s)}); t(function(){return new RegExp(s,"gim").test(s)}); t(function(){return s.split(s.charAt(0)).length});
 		 t(function(){return s.replace(s.substr(1,2), "$&$1")}); t(function(){return s.indexOf(s.slice(-3))+s.lastIndexOf("a")}); t(function(){return s.localeCompare(s+"x")});
-		 t(function(){return eval(s)}); t(function(){return (0,eval)(s)}); t(function(){return Function(s)}); t(function(){return Function(s, s)}); t(function(){return new Function("a", s)()});
+		 t(function(){return eval(s)}); t(function(){return (0,eval)(s)}); if (!__skipFn) { t(function(){return Function(s)}); t(function(){return Function(s, s)}); t(function(){return new Function("a", s)()}) }
 		 t(function(){return Number(s)+parseInt(s)+parseFloat(s)}); t(function(){return Date.parse(s)}); t(function(){return new Date(s).getTime()});
 		 t(function(){var o={}; o[s]=1; return Object.keys(o)[0]===s}); t(function(){return s.trim().substring(1,5).concat(s)}); t(function(){return s.match(/\W+/g)});
 		 return r.join("|") })(__s)`)
 	})
 	return l, nontrivial
+}
+
+// offsetOf converts otto's 1-based (line, column-in-characters) to a byte offset (file.Position.Offset
+// is never filled in by the parser). Only used to count the tokens before the first error.
+func offsetOf(src string, line, col int) int {
+	l, c := 1, 1
+	for i, r := range src {
+		if l == line && c >= col {
+			return i
+		}
+		switch r {
+		case '\n', '\u2028', '\u2029':
+			l, c = l+1, 1
+		case '\r':
+			if i+1 < len(src) && src[i+1] == '\n' {
+				c++
+				continue
+			}
+			l, c = l+1, 1
+		default:
+			c++
+		}
+		if l > line {
+			return i
+		}
+	}
+	return len(src)
 }
 
 func runSource(c sourceCase) (res jobResult) {
@@ -439,12 +518,28 @@ func truncate(s string, n int) string {
 }
 
 var sourceFacet = harness.Register(&harness.Facet[sourceCase]{
-	Name: "source-bytes",
-	Rule: "rapid: source text built from pieces — a token soup (every ES5 keyword and future reserved word, every punctuator, identifiers incl. unicode escapes, numeric/string/regexp literals in valid, partial and hostile forms, comments, line terminators, BOM, hostile one-line snippets), raw invalid UTF-8 / NUL bytes, pieces repeated up to 20000 times (very long identifiers and numbers), nesting openers repeated 3…5000 times with or without matching closers, inline base64 source maps, and valid programs from the semantic generator that are truncated, cut, spliced with another program, have ranges duplicated and tokens or raw bytes inserted. Each text goes, inside a worker subprocess on a runtime with stack depth limit ∈ {2,5,16,64,500} and a poll budget, through parser.ParseFile (two modes), parser.ParseFunction (as parameters and as body), the public scanner, Otto.Compile, Run(*Script), Run(string), Run(*ast.Program), Run(io.Reader), Eval, Otto.Call (three forms), Otto.Object, Otto.Get/Set with the text as name, and as a string value through eval/Function/RegExp/JSON.parse/URI/Date.parse/etc. Oracle: every call returns; no Go panic crosses the API (the poll-budget sentinel excepted); the worker survives and answers. Non-trivial = the text is accepted or otto's scanner delivers ≥ 3 tokens before the first syntax error; distinct by the piece list",
-	Quick:    700,
-	Thorough: 9000,
+	Name:     "source-bytes",
+	Rule:     "rapid: source text built from pieces — a token soup (every ES5 keyword and future reserved word, every punctuator, identifiers incl. unicode escapes, numeric/string/regexp literals in valid, partial and hostile forms, comments, line terminators, BOM, hostile one-line snippets), raw invalid UTF-8 / NUL bytes, pieces repeated up to 20000 times (very long identifiers and numbers), nesting openers repeated 3…5000 times with or without matching closers, inline base64 source maps, and valid programs from the semantic generator that are truncated, cut, spliced with another program, have ranges duplicated and tokens or raw bytes inserted. Each text goes, inside a worker subprocess on a runtime with stack depth limit ∈ {2,5,16,64,500} and a poll budget, through parser.ParseFile (two modes), parser.ParseFunction (as parameters and as body), the public scanner, (texts ≤ 300 bytes: ParseFile and ParseFunction on EVERY prefix, i.e. end of input after and inside every token), Otto.Compile, Run(*Script), Run(string), Run(*ast.Program), Run(io.Reader), Eval, Otto.Call (three forms), Otto.Object, Otto.Get/Set with the text as name, and as a string value through eval/Function/RegExp/JSON.parse/URI/Date.parse/etc. Oracle: every call returns; no Go panic crosses the API (the poll-budget sentinel excepted); the worker survives and answers. Non-trivial = the text is accepted or otto's scanner delivers ≥ 3 tokens before the first syntax error; distinct by the piece list",
+	Quick:    400,
+	Thorough: 2500,
 	Gen:      genSource,
 	Check:    checkSource,
 })
 
 func TestSourceBytes(t *testing.T) { sourceFacet.Run(t) }
+
+// TestHostileSnippets runs every hostile one-liner of the soup on its own through all entry points
+// (a finite list; the generated texts above mix them with everything else).
+func TestHostileSnippets(t *testing.T) {
+	if harness.Shard() != 0 {
+		return
+	}
+	var cases []sourceCase
+	for _, sn := range activeSnippets() {
+		cases = append(cases, sourceCase{Pieces: []piece{{T: sn}}, Limit: 64, Mode: "snippet"})
+	}
+	for _, lit := range soupLiterals {
+		cases = append(cases, sourceCase{Pieces: []piece{{T: lit}}, Limit: 64, Mode: "literal"})
+	}
+	sourceFacet.Each(t, cases)
+}
